@@ -929,6 +929,232 @@ def _edit_from_json(j):
     return (j[0], tuple(j[1]), j[2])
 
 
+
+# ------------------------------------------------------------------ channel: lazyedit (eager and lazy alike after an edit)
+
+# what an edit of a box of type X looks like (value changes that a dependent box could pick up)
+X_EDITS = {
+    "tfhd": [("set", "default_sample_duration", "+10"), ("set", "default_sample_size", "+1"),
+             ("set", "default_sample_flags", "^65536"), ("set", "track_id", "+1")],
+    "tenc": [("set", "iv_size", "swap-iv"), ("set", "is_encrypted", "^1")],
+    "saiz": [("set", "default_sample_info_size", "+2"), ("set", "sample_count", "+0")],
+    "senc": [("set", "version", "+0"), ("set", "flags", "+0")],
+    "mdat": [("set-data", "data", None)],
+    "moof": [("remove-before", None, None), ("insert-before", None, None)],
+    "traf": [("append-free", None, None)],
+    "moov": [("append-free", None, None)],
+    "trun": [("set", "first_sample_flags", "+0")],
+}
+
+
+def listener_pairs():
+    """(dependent box Y, box X it waits for) – read from the registered classes: DEPENDS_UPON are the
+    `change.<X>` listeners a lazily loaded Y registers, REQUIRED_PEERS defer its parsing"""
+    m = I.mp4()
+    pairs = set()
+    for code, cls in m.fourcc.BOXES.items():
+        y = "senc" if code.startswith("UUID(") else code
+        for x in getattr(cls, "DEPENDS_UPON", None) or ():
+            pairs.add((y, x))
+        for x in getattr(cls, "REQUIRED_PEERS", None) or ():
+            pairs.add((y, x))
+    return sorted(pairs)
+
+
+def _find_type(wrapper, name):
+    """first box of the given type, loading only the boxes on the way to it"""
+    def rec(a):
+        for c in list(a.children or []):
+            c = I.real(c) if c.atom_type in ("moov", "trak", "mdia", "minf", "stbl", "stsd", "encv", "enca", "sinf",
+                                             "schi", "moof", "traf", name) else c
+            if c.atom_type == name:
+                return c
+            if c.atom_type in ("moov", "trak", "mdia", "minf", "stbl", "stsd", "encv", "enca", "sinf", "schi",
+                               "moof", "traf"):
+                r = rec(c)
+                if r is not None:
+                    return r
+        return None
+    return rec(wrapper)
+
+
+def apply_x_edit(wrapper, xtype, edit):
+    """one supported edit of the first box of type `xtype`; the dependants are not touched"""
+    m = I.mp4()
+    op, field, how = edit
+    if op in ("remove-before", "insert-before"):
+        kids = list(wrapper.children)
+        idx = next(i for i, c in enumerate(kids) if c.atom_type == xtype)
+        if op == "remove-before":
+            if idx == 0:
+                return False
+            wrapper.remove_child(idx - 1)
+        else:
+            free = I.load(struct.pack(">I4s", 12, b"free") + b"pad!", False, "rw").children[0]
+            wrapper.insert_child(idx, free)
+        return True
+    x = _find_type(wrapper, xtype)
+    if x is None:
+        return False
+    if op == "append-free":
+        x.append_child(I.load(struct.pack(">I4s", 12, b"free") + b"pad!", False, "rw").children[0])
+        return True
+    if op == "set-data":
+        old = x.data.data if hasattr(x.data, "data") else x.data
+        if not old:
+            return False
+        x.data = m.Binary(bytes((b + 1) & 0xFF for b in old), encoding=m.Binary.BASE64)
+        return True
+    try:
+        v = getattr(x, field)
+    except AttributeError:
+        return False
+    if v is None:
+        return False
+    if how == "swap-iv":
+        v = 16 if v == 8 else 8
+    elif how.startswith("+"):
+        v = v + int(how[1:])
+    elif how.startswith("^"):
+        v = v ^ int(how[1:])
+    setattr(x, field, v)
+    return True
+
+
+def _masked_fields(w) -> str:
+    """all field values of all boxes, without the one attribute that is not a field of the bytes: the
+    base_data_offset a tfhd *derives* from the position of its moof when the flag is off, and the stored
+    `position` attributes (defined by encode())"""
+    def mask(o):
+        if isinstance(o, dict):
+            if o.get("atom_type") == "tfhd" and not (o.get("flags", 0) & 1):
+                o = dict(o, base_data_offset=None)
+            # stored positions are only defined after encode() (see boxedit); they are judged through the bytes
+            return {k: mask(v) for k, v in o.items() if k != "position"}
+        if isinstance(o, list):
+            return [mask(x) for x in o]
+        return o
+    return json.dumps(mask(json.loads(I.pure_json(w))), sort_keys=True)
+
+
+def _open_containers(w):
+    """load the pure containers (moov … moof, traf) so that their children exist as lazy boxes that
+    listen to change events – the children themselves stay unparsed"""
+    def rec(a, depth=0):
+        for c in list(a.children or []):
+            if c.atom_type in G.CONTAINERS and depth < 8:
+                rec(I.real(c), depth + 1)
+    rec(w)
+
+
+def lazyedit_case(data: bytes, iv, xtype, edit, opened=True):
+    """the same edit on an eager and on a lazy tree (mode rw): field values of every box and the encoded
+    bytes must be alike.  Returns (applied, failures)."""
+    seen = {}
+    for lazy in (False, True):
+        tag = "lazy" if lazy else "eager"
+        try:
+            def run():
+                w = I.load(data, lazy, "rw", iv)
+                if opened:
+                    _open_containers(w)
+                I.run_calls(w, HIST.calls)
+                if not apply_x_edit(w, xtype, edit):
+                    return None
+                fields = _masked_fields(w)
+                try:
+                    out = I.encode(w).hex()
+                except Exception as e:
+                    out = f"exception {type(e).__name__}"
+                return fields, out
+            seen[tag] = guarded(run)
+        except Exception as e:
+            seen[tag] = ("exception " + type(e).__name__ + ": " + str(e)[:80], "")
+    if seen["eager"] is None or seen["lazy"] is None:
+        return False, []
+    fails = []
+    if seen["eager"][0] != seen["lazy"][0]:
+        a, b = seen["eager"][0], seen["lazy"][0]
+        k = next((i for i in range(min(len(a), len(b))) if a[i] != b[i]), min(len(a), len(b)))
+        fails.append({"clause": "lazy-fields", "what": f"after the edit of {xtype} ({edit[0]} {edit[1]} {edit[2]}) eager and "
+                      f"lazy trees expose different field values", "eager": a[max(0, k - 60):k + 60], "lazy": b[max(0, k - 60):k + 60]})
+    if seen["eager"][1] != seen["lazy"][1]:
+        fails.append({"clause": "lazy-fields", "what": f"after the edit of {xtype} ({edit[0]} {edit[1]} {edit[2]}) eager and lazy "
+                      f"trees encode differently", "eager": seen["eager"][1][:60], "lazy": seen["lazy"][1][:60]})
+    return True, fails
+
+
+def lazyedit_inputs(ctx):
+    """fixture files cut after their first fragment (moov + styp/sidx/moof/mdat), and generated fragments"""
+    out = []
+    for path in fixture_files():
+        data = path.read_bytes()
+        try:
+            nodes = W.walk(data)
+        except W.WalkError:
+            continue
+        mdat = next((n for n in nodes if n.type == b"mdat"), None)
+        if mdat is None or not any(n.type == b"moof" for n in nodes) or mdat.end > 400_000:
+            continue
+        out.append((str(path.relative_to(FIXTURES)), data[:mdat.end], W.tenc_iv_size(data, nodes) or 8))
+    return out
+
+
+def ch_lazyedit(ctx):
+    ch = Channel("lazyedit", rule=(
+        "edit histories in lazy mode: for every (dependent box Y, box X) pair the library registers (DEPENDS_UPON = the "
+        "change.<X> listeners of a lazily loaded Y, REQUIRED_PEERS) one supported edit of X (assign a field, remove / "
+        "insert a box in front, append a child) is applied to an eager and to a lazy tree in mode rw while Y is still "
+        "unparsed; all field values (pure JSON of the whole tree, incl. the values Y derives from X) and the encoded "
+        "bytes must be alike. Fixed grid: every pair x every edit of X x every fixture that has a fragment (cut after the "
+        "first mdat, with its moov), then generated fragments. Non-trivial = distinct (input, X, edit) that applied. "
+        "This is differential eager-vs-lazy (the clause the property states); the Lean model has no loading order."))
+    try:
+        pairs = listener_pairs()
+        xs = sorted({x for _, x in pairs})
+        for y, x in pairs:
+            ch.count(f"listener {y} <- {x}")
+            if x not in X_EDITS:
+                ch.disagreements.append({"what": "the library registers a dependency the check has no edit for", "pair": [y, x]})
+        inputs = lazyedit_inputs(ctx)
+        rng = ctx.rng("lazyedit")
+        # generated fragments (with mdat, sidx/styp in front, tfhd defaults, senc/saiz/saio)
+        gen = []
+        for i in range(ctx.scale(60, 1500)):
+            forest, c = G.gen_forest(rng, False)
+            if any(t[0] == "N" and t[1] == G.cc("moof") for t in forest):
+                gen.append((forest, c))
+        outs = encode_cases(gen) if gen else []
+        for (forest, c), o in zip(gen, outs):
+            if o not in ("bad-op", "-"):
+                inputs.append(("generated", bytes.fromhex(o), c[0]))
+        hr = ctx.rng("lazyedit-history")
+        for name, data, iv in inputs:
+            for x in xs:
+                for edit in X_EDITS.get(x, []):
+                    if len(ch.oracle_failures) >= 20:
+                        break
+                    for opened in (True, False):
+                        HIST.begin([] if name != "generated" else I.gen_calls(hr, 3))
+                        applied, fails = lazyedit_case(data, iv, x, edit, opened)
+                        if applied:
+                            ch.evaluations += 1
+                            ch.count("edit of " + x + (" (containers loaded, dependants unparsed)" if opened else " (nothing loaded)"))
+                            ch.nontrivial.add((name if name != "generated" else data, x, edit, opened))
+                            ch.sample({"input": name, "edit": [x, list(edit)], "containers_loaded": opened}, limit=3)
+                        if fails:
+                            region = [] if opened else ["dependant-inside-unloaded-container"]
+                            ch.oracle_failures.append({"kind": "lazy-edit", "data": data.hex() if len(data) < 4000 else "",
+                                                       "fixture_prefix": None if name == "generated" else name, "iv": iv,
+                                                       "x": x, "edit": list(edit), "opened": opened, "failures": fails[:2],
+                                                       "calls": HIST.calls, "regions": sorted(regions(data)) + region})
+                        HIST.end(ch, data if len(data) < 4000 else b"", iv)
+    except Exception as e:
+        import traceback
+        traceback.print_exc()
+        ch.errors.append(f"{type(e).__name__}: {e}")
+    return ch
+
 # ------------------------------------------------------------------ channel: boxlazy
 
 def ch_boxlazy(ctx):
@@ -1197,6 +1423,7 @@ def channels(ctx):
     yield ch_tfdtset(ctx)
     yield ch_boxedit(ctx)
     yield ch_boxlazy(ctx)
+    yield ch_lazyedit(ctx)
     yield ch_boxwalk(ctx)
     yield ch_classes_diff(ctx)
 
@@ -1228,6 +1455,14 @@ def _oracle_on_failure_dict(f):
 
 def _oracle_case(f):
     kind = f.get("kind")
+    if kind == "lazy-edit":
+        if f.get("fixture_prefix"):
+            full = (FIXTURES / f["fixture_prefix"]).read_bytes()
+            mdat = next(n for n in W.walk(full) if n.type == b"mdat")
+            data = full[:mdat.end]
+        else:
+            data = bytes.fromhex(f["data"])
+        return lazyedit_case(data, f.get("iv"), f["x"], tuple(f["edit"]), f.get("opened", True))[1]
     iv = f.get("iv")
     if kind == "tfdt-switch":
         v0, a, b = f["v0"], f["old"], f["new"]
@@ -1344,12 +1579,13 @@ def search(ctx, disagreements):
 
 def replay(ctx, payload):
     f = payload.get("failure") or {}
-    if not f or ("data" not in f and "fixture" not in f and f.get("kind") != "tfdt-switch"):
+    if not f or ("data" not in f and "fixture" not in f and f.get("kind") not in ("tfdt-switch", "lazy-edit")):
         return {"fails": False, "note": "replay names a broken obligation, no input", "payload": payload.get("broken")}
     fails = _oracle_on_failure_dict(f)
     return {"fails": bool(fails), "failures": fails[:5], "input": {k: (v if k != "data" else v[:200]) for k, v in f.items()
                                                                    if k in ("kind", "data", "iv", "fixture", "edits", "regions",
-                                                                            "calls", "prelude", "variant")}}
+                                                                            "calls", "prelude", "variant", "x", "edit",
+                                                                            "fixture_prefix", "opened")}}
 
 
 def replay_finding(ctx, finding):
@@ -1361,5 +1597,9 @@ def matches_finding(finding, failure_):
     """an oracle failure falls under an open entry only if the input lies in the entry's excluded region
     (as classified by the independent walker) and the failing clause is the entry's clause"""
     region = finding.get("region")
-    return bool(region) and region in (failure_.get("regions") or []) and \
-        failure_.get("kind") == finding.get("oracle_clause")
+    if not (bool(region) and region in (failure_.get("regions") or []) and
+            failure_.get("kind") == finding.get("oracle_clause")):
+        return False
+    if finding.get("x") is not None:      # lazy-edit findings are per edited box type
+        return failure_.get("x") == finding["x"] and failure_.get("opened") is False
+    return True
